@@ -2,15 +2,15 @@ package main
 
 import (
 	"fmt"
-	"sync/atomic"
+	"sync"
 	"time"
 
 	"github.com/VolantMQ/vlapi/mqttp"
 )
 
 func init() {
-	// experiment: a QoS 0 retained publish REPLACES the retained message of its topic; is there a moment at which
-	// a reader finds the topic without any retained message?
+	// experiment: the expiry sweep of the read path (getRetained: Load, Expired?, Store(empty)) against a fresh retained
+	// message stored between its Load and its Store
 	subcmds["dbg"] = func(args []string) int {
 		prov, err := newProvider("lf")
 		if err != nil {
@@ -18,38 +18,62 @@ func init() {
 			return 1
 		}
 		defer prov.Shutdown()
-		mk := func(tag byte) *mqttp.Publish {
-			m := mqttp.NewPublish(mqttp.ProtocolV311)
-			_ = m.Set("r/t", []byte{0, tag}, 0, true, false)
+		mk := func(topic string, tag byte, expired bool) *mqttp.Publish {
+			m := mqttp.NewPublish(mqttp.ProtocolV50)
+			_ = m.Set(topic, []byte{0, tag}, 1, true, false)
+			if expired {
+				m.SetExpireAt(time.Now().Add(-time.Hour))
+			}
 			return m
 		}
-		_ = prov.Retain(mk(1))
-		for {
-			if r, _ := prov.Retained("r/t"); len(r) == 1 {
-				break
-			}
-			time.Sleep(time.Millisecond)
-		}
-		var stop int32
-		go func() {
-			for i := 0; atomic.LoadInt32(&stop) == 0; i++ {
-				_ = prov.Retain(mk(byte(i)))
-				if i%64 == 0 {
-					time.Sleep(50 * time.Microsecond)
+		barrier := func() {
+			_ = prov.Retain(mk("zz/b", 1, false))
+			for {
+				if r, _ := prov.Retained("zz/b"); len(r) == 1 {
+					break
 				}
 			}
-		}()
-		t0 := time.Now()
-		empty, n := 0, 0
-		for time.Since(t0) < 2*time.Second {
-			r, _ := prov.Retained("r/t")
-			n++
-			if len(r) == 0 {
-				empty++
+			m := mqttp.NewPublish(mqttp.ProtocolV311)
+			_ = m.Set("zz/b", []byte{}, 1, true, false)
+			_ = prov.Retain(m)
+			for {
+				if r, _ := prov.Retained("zz/b"); len(r) == 0 {
+					break
+				}
 			}
 		}
-		atomic.StoreInt32(&stop, 1)
-		fmt.Printf("reads=%d empty=%d\n", n, empty)
+		lost := 0
+		t0 := time.Now()
+		iters := 0
+		for ; time.Since(t0) < 20*time.Second; iters++ {
+			_ = prov.Retain(mk("e/t", 1, true))
+			barrier()
+			var wg sync.WaitGroup
+			start := make(chan struct{})
+			for g := 0; g < 6; g++ {
+				wg.Add(1)
+				go func() {
+					defer wg.Done()
+					<-start
+					for k := 0; k < 20; k++ {
+						_, _ = prov.Retained("e/t")
+					}
+				}()
+			}
+			wg.Add(1)
+			go func() {
+				defer wg.Done()
+				<-start
+				_ = prov.Retain(mk("e/t", 2, false))
+			}()
+			close(start)
+			wg.Wait()
+			barrier()
+			if r, _ := prov.Retained("e/t"); len(r) != 1 {
+				lost++
+			}
+		}
+		fmt.Printf("iterations=%d lost=%d\n", iters, lost)
 		return 0
 	}
 }
